@@ -120,6 +120,10 @@ CONFIGS = {
   # an awaited event that is rescheduled (earlier or later) or cancelled while a process waits for it with a timeout
   "wev2r": dict(np=2, prio=[0, 0], auto=[1, 1], nres=1, poolcap=1, maxlen=3, maxtime=5, uevs=[(2, 0, I("nop"))],
                alphabet=[I("hold", 1), I("wevent", 1), I("tadd", 1, -5), I("tadd", 3, 7), I("evresched", 1, 0), I("evresched", 1, 2), I("evcancel", 1)]),
+  # timers armed for the other process (which is blocked in a hold, a wait for a process, an acquire)
+  "wait2o": dict(np=2, prio=[0, 1], auto=[1, 1], nres=1, poolcap=1, maxlen=3, maxtime=5,
+               alphabet=[I("hold", 1), I("hold", 3), I("wproc", 1), I("acq", 1), I("taddo", 1, 1, 7), I("taddo", 1, 0, -5), I("tadd", 2, -5), I("tclear")],
+               roles=[["hold", "acq", "tadd", "tclear"], ["hold", "wproc", "acq", "taddo"]]),
   # subscribe / unsubscribe: is a release forwarded exactly while the condition is registered?
   "cond2u": dict(np=2, prio=[0, 0], auto=[1, 1], nres=1, poolcap=1, maxlen=5, maxtime=4,
                alphabet=[I("hold", 1), I("cwait", 2), I("csub", 0), I("cunsub", 0), I("acq", 1), I("rel", 1)]),
@@ -152,7 +156,7 @@ SIMULATE = {"big3": (6000, 150), "big4": (6000, 150)}
 
 FOR_PROPERTY = {
   "C01": (["wev2", "wev2r"], ["wev2s"]),
-  "C04": (["wait2", "wev2"], ["wait2r", "wev2s", "wev2r", "lost2", "end2", "x3res", "x3cond"]),
+  "C04": (["wait2", "wev2", "wait2o"], ["wait2r", "wev2s", "wev2r", "lost2", "end2", "x3res", "x3cond"]),
   "C11": (["buf2", "x3buf"], ["buf3"]),
   "C12": (["queue2", "x3oq"], ["queue3", "x3pq"]),
   "C13": (["cond2", "cond3s", "cond2u"], ["cond3", "x3cond"]),
